@@ -175,12 +175,15 @@ DoRead(c, s, v, size) ==
                        IN IF ~Ok(r.s) THEN r
                           ELSE [s |-> [r.s EXCEPT !.pos[v] = s.pos[v] + t], data |-> r.data]
 
-\* readall(): read(buffer_length) until an empty read; buffer_length >= every view here, so at most
-\* two iterations happen; modelled with buffer = Size+1
-ReadAll(c, s, v) ==
-  LET r1 == DoRead(c, s, v, Size(c, v) + 1) IN
-  IF ~Ok(r1.s) \/ Len(r1.data) < 1 THEN r1
-  ELSE LET r2 == DoRead(c, r1.s, v, Size(c, v) + 1) IN [s |-> r2.s, data |-> r1.data \o r2.data]
+\* readall(): read(buffer_length) until a read returns nothing.  blen = 0 stands for the default buffer (4096 bytes,
+\* larger than every view here: modelled as Size+1); a small blen makes the loop take several iterations.
+RECURSIVE ReadAllLoop(_, _, _, _, _)
+ReadAllLoop(c, s, v, n, acc) ==
+  LET r == DoRead(c, s, v, n) IN
+  IF ~Ok(r.s) THEN [s |-> r.s, data |-> <<>>]
+  ELSE IF Len(r.data) < 1 THEN [s |-> r.s, data |-> acc]
+  ELSE ReadAllLoop(c, r.s, v, n, acc \o r.data)
+ReadAll(c, s, v) == ReadAllLoop(c, s, v, IF c.views[v].blen > 0 THEN c.views[v].blen ELSE Size(c, v) + 1, <<>>)
 
 \* ---- operations of the state machine ------------------------------------------
 TargetViews(c) == IF OpViews = "top" THEN {Len(c.views)} ELSE c.targets
